@@ -4,5 +4,5 @@
 From Coq Require Import Extraction ExtrOcamlBasic NArith ZArith List.
 From AHK Require Import Lib.Res Model.Convert Model.ConvertHist.
 Separate Extraction Z.of_N Z.to_N N.of_nat N.to_nat
-  check_convert dadd dsub dmul ddiv dfix to_integral dcompare dec_to_Z snap_int
+  check_convert daddb dsubb dmulb ddivb dfixb to_integral_f dcmp dec_to_Z_f snap_int
   ConvertHist.run.
